@@ -42,6 +42,12 @@ theorem decode_reads_fields_f64 (s E M : Nat) (hs : s < 2) (hE : E < 2 ^ 11) (hM
                 if E = 0 then Ieee.binary64.qmin else Ieee.binary64.qmin + E - 1) :=
   decode_fields f64Dec .binary64 f64Dec_compat s E M hs hE hM
 
+/-- the specification used for rationals and floats of any base (`ieeeRoundRat`) extends the one of
+    `encode`: on `num / 2^j` it is `ieeeRound num (-j)` -/
+theorem spec_rational_extends_dyadic (F : Ieee) (num : Int) (j : Nat) :
+    ieeeRoundRat F .halfEven num (2 ^ j) = ieeeRound F num (-(j : Int)) :=
+  ieeeRoundRat_dyadic F num j
+
 /-! ### `encode` (base/src/bit.rs) — the centre of C06 -/
 
 /-- **encode_correct**, `f32` (body of the current tree, fix commit 6967148): for EVERY `i32`
